@@ -52,6 +52,9 @@ func (c CounterOfferTx) Validate(ctx *action.Context, signedTx action.SignedTx) 
 	if currency.Name != counterOffer.Amount.Currency {
 		return false, errors.Wrap(action.ErrInvalidAmount, counterOffer.Amount.String())
 	}
+	if !counterOffer.Amount.IsValid(ctx.Currencies) {
+		return false, errors.Wrap(action.ErrInvalidAmount, counterOffer.Amount.String())
+	}
 
 	//Check if bid ID is valid
 	if counterOffer.BidConvId.Err() != nil {
